@@ -99,10 +99,14 @@ def add_child_contract(c, typed, pos_fn=None, target_fn=None, kind_fn=None, has_
         return Or(Not(L.v_truthy(x.a.node_id)), x.h0.ddom(x.h0._node_by_id(x.T), x.a.node_id))
 
     c.raises("ValueError", when=bad_before, ensures=lambda x: And(obs_unchanged(x), wf1(x)), props=("C13", "C04"))
-    c.raises("UniqueConstraintError", when=lambda x: And(Not(bad_before(x)), Not(bad_nid(x)), Or(clash(x), id_conflict(x))), ensures=lambda x: And(obs_unchanged_but_fresh(x), wf1(x)), props=("C03", "C13"))
+    def own_child(x):
+        """the source node already is a child of the target (a special case of `clash`, stated for the prover)"""
+        return And(x.h0._tree(x.a.child) == x.T, x.h0._parent(x.a.child) == target_fn(x, x.h0)) if is_node_child(x) else z3.BoolVal(False)
+
+    c.raises("UniqueConstraintError", when=lambda x: And(Not(bad_before(x)), Or(own_child(x), id_conflict(x), And(Not(bad_nid(x)), clash(x)))), ensures=lambda x: And(obs_unchanged_but_fresh(x), wf1(x)), props=("C03", "C13"))
     c.may_raise("AssertionError", ensures=lambda x: And(obs_unchanged_but_fresh(x), wf1(x)), props=("C13",), name="node_id refused")
     # only the data path calls the user's calc_data_id callback (a node argument brings its id along)
-    c.may_raise("Exception", ensures=lambda x: And(obs_unchanged_but_fresh(x), wf1(x)), props=("C13",), name="calc_data_id callback raises",
+    c.may_raise("Callback", ensures=lambda x: And(obs_unchanged_but_fresh(x), wf1(x)), props=("C13",), name="calc_data_id callback raises",
                 when=lambda x: z3.BoolVal(not is_node_child(x) and x.a.tag("data_id") == "none"))
 
     def post(x):
@@ -565,7 +569,7 @@ def _(c):
     c.requires("bool keys excluded", lambda x: Not(L.v_is_bool(x.a.data)))
     c.may_raise("KeyError", ensures=lambda x: unchanged_lists(x), props=("C09", "C13"))
     c.may_raise("AmbiguousMatchError", ensures=lambda x: unchanged_lists(x), props=("C09", "C13"))
-    c.may_raise("Exception", ensures=None, name="callback raises")
+    c.may_raise("Callback", ensures=None, name="callback raises")
     c.ensures("tree well-formed afterwards", lambda x: wf1(x))
 
 
@@ -632,7 +636,7 @@ def _(c):
     c.raises("ValueError", when=missing, ensures=unchanged, props=("C13",))
     c.raises("AmbiguousMatchError", when=lambda x: And(Not(missing(x)), ambiguous(x)), ensures=unchanged, props=("C13", "C09"))
     c.raises("UniqueConstraintError", when=lambda x: And(Not(missing(x)), Not(ambiguous(x)), clash(x)), ensures=unchanged, props=("C03", "C13"))
-    c.may_raise("Exception", ensures=unchanged, props=("C13",), name="calc_data_id callback raises")
+    c.may_raise("Callback", ensures=unchanged, props=("C13",), name="calc_data_id callback raises")
 
     def post(x):
         h0, h, s, T = x.h0, x.h, x.a.self, x.T
@@ -668,6 +672,8 @@ def _(c):
         return If(chg_i, If(whole_group(x), If(is_target(x, o), moved_group, h0.cpos(o)), single), h0.cpos(o))
 
     c.ghost_exit["cpos"] = cpos_exit
+    # ghost assert before `_index_of(clone list, self)`: self sits at its clone position (so ValueError is impossible)
+    c.call_hints["_index_of"] = lambda x: And(x.h.litem(x.call_args.node_list, x.h0.cpos(x.a.self)) == x.a.self, 0 <= x.h0.cpos(x.a.self), x.h0.cpos(x.a.self) < x.h.llen(x.call_args.node_list))
 
     # ---- loop invariants (ordinals in source order)
     def nid_now(x):
@@ -744,7 +750,7 @@ def _(c):
     c.raises("ValueError", when=lambda x: Or(Not(L.v_is_str(x.h0._data(x.a.self))), Not(L.v_truthy(x.a.new_name))), ensures=unchanged, props=("C13",))
     c.may_raise("AmbiguousMatchError", ensures=unchanged, props=("C13",))
     c.may_raise("UniqueConstraintError", ensures=unchanged, props=("C03", "C13"))
-    c.may_raise("Exception", ensures=unchanged, props=("C13",), name="calc_data_id callback raises")
+    c.may_raise("Callback", ensures=unchanged, props=("C13",), name="calc_data_id callback raises")
     c.ensures("only data / data_id of the node changed; tree well-formed (index exact)", lambda x: And(wf1(x), fields_same_except(x, tuple(f for f in NODE_FIELDS if f not in ("_data", "_data_id")) + TREE_FIELDS, []), other_childlists_same(x, x.T)))
 
 
